@@ -252,6 +252,12 @@ class World:
         lens = {s: sorted({len(getattr(p, s).transformers) for p in preps}) for s in STAGES}
         out["chain_len"] = lens
         out["ndata"] = sorted({p.n_data for p in preps})
+        if fam.kind == "multi":
+            # a multi-set model holds one preprocessor per view, each with one item: the specification's item
+            # count of a data set (1 for the two-view sets, 2 for the three-view one) is the number of fitted
+            # item transformers beyond the first view's
+            out["chain_len"] = {s: [sum(len(getattr(p, s).transformers) for p in preps) - 1] for s in STAGES}
+            out["ndata"] = [sum(p.n_data for p in preps) - 1]
         if fam.kind != "multi":
             out["namesOK"] = all(getattr(v, "name", k) == k for k, v in model.data.items())
             allowed = [k for k in model.data.keys() if model.data._allow_compute.get(k, True)]
